@@ -264,3 +264,43 @@ def guard_stack(fn_node: ast.AST) -> Dict[int, List[Tuple[ast.AST, bool]]]:
                 visit(st.finalbody, stack)
     visit(fn_node.body if not isinstance(fn_node, ast.Lambda) else [], [])
     return out
+
+
+def path_guards(fn_node: ast.AST) -> Dict[int, List[Tuple[ast.AST, bool]]]:
+    """Like guard_stack, but a statement that follows an early exit inherits the negated exit condition:
+        if C: continue / return / raise / break      (no else)
+        S                                            -> S is guarded by (C, False)
+    and  `if C: <abrupt> else: T`  guards what follows by (C, False) as well.  This makes the guard-clause form and the
+    nested form of the same code carry the same guards."""
+    from .astutil import ends_abruptly
+    out: Dict[int, List[Tuple[ast.AST, bool]]] = {}
+
+    def visit(stmts, stack):
+        stack = list(stack)
+        for st in stmts:
+            out[id(st)] = list(stack)
+            if isinstance(st, ast.If):
+                visit(st.body, stack + [(st.test, True)])
+                visit(st.orelse, stack + [(st.test, False)])
+                a = ends_abruptly(st.body)
+                b = ends_abruptly(st.orelse) if st.orelse else None
+                if a and not b:
+                    stack = stack + [(st.test, False)]
+                elif b and not a:
+                    stack = stack + [(st.test, True)]
+            elif isinstance(st, ast.While):
+                visit(st.body, stack + [(st.test, True)])
+                visit(st.orelse, stack)
+            elif isinstance(st, (ast.For, ast.AsyncFor)):
+                visit(st.body, stack)
+                visit(st.orelse, stack)
+            elif isinstance(st, (ast.With, ast.AsyncWith)):
+                visit(st.body, stack)
+            elif isinstance(st, ast.Try):
+                visit(st.body, stack)
+                for h in st.handlers:
+                    visit(h.body, stack)
+                visit(st.orelse, stack)
+                visit(st.finalbody, stack)
+    visit(fn_node.body if not isinstance(fn_node, ast.Lambda) else [], [])
+    return out
